@@ -32,6 +32,11 @@ add("C04", "exploration",
     "trusted: simdisk.KV, the closed observation universe; AccountDB/journal/tries are the real code; base states start with the native-token contract binding every genesis creates",
     "deterministic simulation: seeded histories with nested reverts + reopen faults; observation and twin-run oracles")
 
+add("C19", "fault_enumeration",
+    "seeded histories of AddGroup (valid and three kinds of invalid), remove-last-group, remove-then-different-group and restart on a booted real node; the invariant (linked list from genesis, count, height index below and above count, by-id retrieval, removed groups gone, sync successors) is checked against a slice model on the live node after every operation and - exhaustively per history - on a fresh incarnation booted from the disk image taken after every operation. Crash points inside an operation are booted too but only reported as probes (outside the property's quantifier).",
+    "trusted: simulated storage under real goleveldb (completed writes survive), stub ConsensusHelper.CheckGroup, in-process restart (singletons reset through in-package drivers)",
+    "deterministic simulation: op histories + restart-after-every-op enumeration from disk images vs slice model")
+
 hooks_commits = subprocess.run(["git", "-C", "/repo", "log", "--format=%h %s", "--grep=^verif hook"], capture_output=True, text=True).stdout.strip().splitlines()
 
 m = {
